@@ -196,6 +196,30 @@ def _hist_float():
     return lena.structures.histogram([0, 1, 2], [0.5, 1.5])
 
 
+def _hist_nd_listbins(dim):
+    import lena.structures
+    edges = [[0, 1, 2]] + [[0, 1]] * (dim - 1)
+    bins = [3, 7]
+    cell = lambda k: [k, 2 * k]
+    b = [cell(1), cell(2)]
+    for _ in range(dim - 1):
+        b = [[x] for x in b]
+    return lena.structures.histogram(edges, b)
+
+
+def _hist_nd_int(dim):
+    import lena.structures
+    edges = [[0, 1, 2]] + [[0, 1]] * (dim - 1)
+    b = [3, 4]
+    for _ in range(dim - 1):
+        b = [[x] for x in b]
+    return lena.structures.histogram(edges, b)
+
+
+def _not_big(v):
+    return not _big_int(v)
+
+
 def _hist2():
     import lena.structures
     return lena.structures.histogram([[0, 1, 2], [0, 1]], [[1], [2]])
@@ -316,6 +340,11 @@ SPECIFIC = {
     "hist": lambda env: _hist1(),
     "hist_pair": lambda env: (_hist1(), {"variable": {"name": "x"}}),
     "hist_float": lambda env: (_hist_float(), {"h": 1}),
+    # histograms of 4 and 5 dimensions whose bins are lists [entries, sum]
+    "hist4d_listbins": lambda env: (_hist_nd_listbins(4), {"h": 4}),
+    "hist5d_listbins": lambda env: (_hist_nd_listbins(5), {"h": 5}),
+    "hist2d_listbins": lambda env: (_hist_nd_listbins(2), {"h": 2}),
+    "A_hist4d": lambda env: (_hist_nd_int(4), {"plot": {"name": "h4"}}),
     "hist_nograph": lambda env: (_hist1(), {"histogram": {"to_graph": False}}),
     # bins that are (data, context) pairs, as SplitIntoBins yields them
     "hist_ctxbins_nograph": lambda env: (_hist_ctxbins(), {"histogram": {"to_graph": False}}),
@@ -456,6 +485,28 @@ CONFIGS = {
     "MapBins_falsy_pred": (["A_hist", "A_hist_pair"],
                            ["int", "pair_unrelated", "foreign", "hist_big", "hist_big_pair",
                             "hist_float", "A_histhist"], []),
+    # histograms of more dimensions; bins that are lists
+    "MapBins_nd": (["A_hist", "A_hist4d"],
+                   ["int", "pair_unrelated", "hist_float", "hist4d_listbins", "hist5d_listbins",
+                    "hist2d_listbins", "graph_pair"], []),
+    # selectors given as Not(...) objects
+    "MapBins_not": (["A_hist", "A_hist_pair"],
+                    ["int", "pair_unrelated", "foreign", "hist_float", "graph_pair"], []),
+    "IterateBins_not": (["A_histhist", "A_histhist_pair"],
+                        ["int", "pair_unrelated", "hist", "hist_pair", "graph_pair"], []),
+    "RunIf_not": (["A_big1", "A_big2", "A_big3"], ALL_COMMON + ["small_int", "hist_pair"], []),
+    # deep copies of elements (what the elements that copy their sequences run)
+    "RunIf_not@copy": (["A_big1", "A_big2", "A_big3"], ALL_COMMON + ["small_int"], []),
+    "MapBins_not@copy": (["A_hist", "A_hist_pair"],
+                         ["int", "pair_unrelated", "hist_float", "graph_pair"], []),
+    "IterateBins_not@copy": (["A_histhist", "A_histhist_pair"],
+                             ["int", "pair_unrelated", "hist", "graph_pair"], []),
+    "RunIf_ctxkey@copy": (["A_sel1", "A_sel2", "A_sel3"],
+                          ["int", "pair_unrelated", "no_sel_key", "hist_pair"], []),
+    "MapGroup@copy": (["A_group1", "A_group2", "A_group3"],
+                      ["int", "pair_unrelated", "group_scalar", "hist_pair"], []),
+    "HistToGraph@copy": (["A_hist", "A_hist_pair", "A_hist_float"],
+                         ["int", "pair_unrelated", "hist_nograph", "graph_pair"], []),
     "IterateBins": (["A_histhist", "A_histhist_pair", "A_histhist2"],
                     ALL_COMMON + ["hist", "hist_pair", "hist_float", "graph_pair"], []),
     "RunIf_callable": (["A_big1", "A_big2", "A_big3"],
@@ -485,6 +536,17 @@ def build_element(name, env):
     import lena.output
     import lena.structures
     out = env["out"]
+    if name.endswith("@copy"):
+        import copy
+        return copy.deepcopy(build_element(name[:-len("@copy")], env))
+    if name == "MapBins_nd":
+        return lena.structures.MapBins(_double, select_bins=int)
+    if name == "MapBins_not":
+        return lena.structures.MapBins(_double, select_bins=lena.flow.Not(float))
+    if name == "IterateBins_not":
+        return lena.structures.IterateBins(select_bins=lena.flow.Not(int))
+    if name == "RunIf_not":
+        return lena.flow.RunIf(lena.flow.Not(_not_big), _tag_ran)
     if name == "ToCSV":
         return lena.output.ToCSV()
     if name == "ToCSV_opts":
